@@ -7,7 +7,7 @@ From stdpp Require Import sorting.
 From incr Require Import Base Heap HeapSpec HeapProofs EngineDefs Engine EngineRun EngineWf Spec EngineLemmas EngineLocal
      EngineInv EngineInvProofs PassInv PassProofs PassPlanProofs PassBind PassBindProofs PassBindSwap PassBindSwapProofs
      PassBindSwapStep PassBindOps PassBindFault PassBindWrites PassBindTotal PassBindMixed PassBindFaultGen
-     ParBind ParBindStep ParBindHistory ParBindWrites.
+     ParBind ParBindStep ParBindHistory ParBindWrites ParBindLog PassPlanProofs2 PassBindSwapLog PassBindSwapHandlers ParBindHandlers.
 From incr Require Import SpecProofs.
 
 Local Arguments valueOf : simpl never.
@@ -386,6 +386,116 @@ Section ParFault.
       right. split; [exact TP2|]. split; [exact P2|]. split; [exact L2|]. split; [exact HA2|]. split; [congruence|].
       split; [apply (CF_trans st st' st2 C' C2)|]. split; [exact Hx2|exact He2].
   Qed.
+
+  (* the same, carrying the handler-set invariant *)
+  Hypothesis HFH : forall fuel st R st' e',
+    PInv st -> LInvP st (x :: R) -> inGraph (nd st x) = true -> tkw w (nkind (nd st x)) = true ->
+    isDone st x = false -> recomputeNodeParallel fuel pf st x = Ok (st', e') -> HInv st -> HInv st'.
+
+  Lemma blockBH fuel l : forall st al st2 e2 al2 e0,
+    Tplain st -> PInv st -> LInvP st l -> AW st al -> HInv st -> x ∉ l -> inHeap st x = true ->
+    (forall m, m ∈ l -> has st m /\ isLhs (nkind (nd st m)) = false) ->
+    rfold (blockStep fuel pf) l (st, Some e0, al) = Ok (st2, e2, al2) ->
+    e2 = Some e0 /\ Tplain st2 /\ PInv st2 /\ LInvP st2 [] /\ AW st2 al2 /\ stabNum st2 = stabNum st /\ CF st st2 /\
+    inHeap st2 x = true /\ kstable st st2 /\ HInv st2.
+  Proof.
+    induction l as [|m l IH]; intros st al st2 e2 al2 e0 TP P L HA HI Hxl Hqx Hnl H; simpl in H.
+    { injection H as <- <- <-. split; [reflexivity|]. split; [exact TP|]. split; [exact P|]. split; [exact L|].
+      split; [exact HA|]. split; [reflexivity|]. split; [apply CF_binds; reflexivity|]. split; [exact Hqx|]. split; [apply kstable_refl|exact HI]. }
+    apply rbind_ok in H as ([[st1 e1] al1] & H1 & H). unfold blockStep in H1.
+    assert (Hxl' : x ∉ l) by (intros Hin; apply Hxl; right; exact Hin).
+    assert (Hmx : m <> x) by (intros ->; apply Hxl; left).
+    destruct (Z.eqb_spec (height (nd st m)) unset) as [Hu|Hu].
+    { injection H1 as <- <- <-. apply (IH st al st2 e2 al2 e0 TP P (LInvP_skip st m l (PInv_unset st m P Hu) L) HA HI Hxl' Hqx); [|exact H].
+      intros m' Hm'. apply Hnl. right. exact Hm'. }
+    apply rbind_ok in H1 as ([st' e'] & Hr & [= <- <- <-]).
+    pose proof (PInv_hreg st m P Hu) as Hg. destruct (Hnl m ltac:(left)) as [_ El].
+    destruct (nodeB fuel st m l st' e' TP P L Hg El Hmx Hxl' Hqx Hr) as (-> & TP' & P' & L' & Hk' & C' & Hd & K' & Hqx').
+    assert (HA' : AW st' (if isAlways (nkind (nd st' m)) then al ++ [m] else al)).
+    { intros y A B C. destruct (Hd y B C A) as [(X1 & X2 & X3)| ->].
+      - pose proof (HA y X3 X1 X2). destruct (isAlways (nkind (nd st' m))); [apply elem_of_app; left|]; assumption.
+      - rewrite A. apply elem_of_app. right. left. }
+    assert (HI' : HInv st').
+    { assert (Hkm : forall b, nkind (nd st m) = KBindLhs b -> b = m) by (intros b K; rewrite K in El; discriminate).
+      pose proof Hr as Hr0. unfold pf in Hr0. rewrite (rnp_fplan_other fuel x w k st m Hkm (or_introl Hmx)) in Hr0.
+      exact (rnpH fuel st m l st' TP P L Hg HI Hr0). }
+    destruct (IH st' _ st2 e2 al2 e0 TP' P' L' HA' HI' Hxl' Hqx') as (E & TP2 & P2 & L2 & HA2 & Hk2 & C2 & Hq2 & K2 & HI2); [|exact H|].
+    { intros m' Hm'. destruct (Hnl m' ltac:(right; exact Hm')) as [Hh Hl]. destruct (K' m' Hh) as [Hh' Ek]. rewrite Ek. auto. }
+    split; [exact E|]. split; [exact TP2|]. split; [exact P2|]. split; [exact L2|]. split; [exact HA2|].
+    split; [congruence|]. split; [apply (CF_trans st st' st2 C' C2)|]. split; [exact Hq2|]. split; [apply (kstable_trans st st' st2 K' K2)|exact HI2].
+  Qed.
+
+
+  Lemma blockAH fuel l : forall st al st2 e2 al2,
+    Tplain st -> PInv st -> LInvP st l -> AW st al -> HInv st -> okx st -> ndx st -> lhsFirst st l -> (forall m, m ∈ l -> has st m) ->
+    rfold (blockStep fuel pf) l (st, None, al) = Ok (st2, e2, al2) ->
+    rejected_err e2 \/
+    (Tplain st2 /\ PInv st2 /\ LInvP st2 [] /\ AW st2 al2 /\ HInv st2 /\ stabNum st2 = stabNum st /\ CF st st2 /\ okx st2 /\
+     ((e2 = None /\ ndx st2) \/ (e2 = Some ferr /\ inHeap st2 x = true))).
+  Proof.
+    induction l as [|m l IH]; intros st al st2 e2 al2 TP P L HA HI Hx Hnd HF Hh H; simpl in H.
+    { injection H as <- <- <-. right. split; [exact TP|]. split; [exact P|]. split; [exact L|]. split; [exact HA|]. split; [exact HI|].
+      split; [reflexivity|]. split; [apply CF_binds; reflexivity|]. split; [exact Hx|left; auto]. }
+    apply rbind_ok in H as ([[st1 e1] al1] & H1 & H). unfold blockStep in H1.
+    assert (Hh' : forall m', m' ∈ l -> has st m') by (intros m' Hm'; apply Hh; right; exact Hm').
+    destruct (Z.eqb_spec (height (nd st m)) unset) as [Hu|Hu].
+    { injection H1 as <- <- <-.
+      apply (IH st al st2 e2 al2 TP P (LInvP_skip st m l (PInv_unset st m P Hu) L) HA HI Hx Hnd (lhsFirst_tail st m l HF) Hh' H). }
+    apply rbind_ok in H1 as ([st' e'] & Hr & [= <- <- <-]).
+    pose proof (PInv_hreg st m P Hu) as Hg.
+    assert (Hkm : forall b, nkind (nd st m) = KBindLhs b -> b = m).
+    { intros b K. pose proof (p_kinds _ P m (has_inGraph _ _ Hg)) as Hkk. rewrite K in Hkk. symmetry. apply Hkk. }
+    destruct (decide (m = x /\ tkw w (nkind (nd st m)) = true)) as [[-> Ht]|Hno].
+    - (* the faulting recompute *)
+      destruct (HFS fuel st l st' e' P L Hg Ht (Hnd Ht Hg) Hr) as (-> & L' & Hqx & Eb & Ek & Ehas & Ene & Ekx & Egx & Edx).
+      destruct (recomputeNodeParallel_spec PT PT_struct bind_spec_holds fuel pf st x st' _ Logic.I P eq_refl Hg Hr)
+        as [[Hrj|(P' & _)] _].
+      { exfalso. pose proof Hferr as Hf. unfold ferr in Hf. destruct Hrj as [E|E]; injection E as E; unfold ferr in E;
+          rewrite E in Hf; discriminate Hf. }
+      assert (Hna : isAlways (nkind (nd st' x)) = false) by (rewrite Ekx; apply (tkw_notAlways w), Ht).
+      rewrite Hna in H.
+      assert (HxR : x ∉ l) by (pose proof (lp_nodup _ _ L) as Hn; apply stdpp.list.NoDup_cons in Hn as [Hn _]; exact Hn).
+      assert (HA' : AW st' al).
+      { intros y A B C. assert (Hyx : y <> x) by (intros ->; rewrite Hna in A; discriminate).
+        unfold isDone in B. rewrite (Ene y Hyx), Ek in *. apply (HA y A B C). }
+      pose proof (HFH fuel st l st' _ P L Hg Ht (Hnd Ht Hg) Hr HI) as HI'.
+      destruct (blockBH fuel l st' al st2 e2 al2 ferr (Tplain_binds st st' Eb TP) P' L' HA' HI' HxR Hqx)
+        as (-> & TP2 & P2 & L2 & HA2 & Hk2 & C2 & Hq2 & K2 & HI2); [|exact H|].
+      { intros m' Hm'. assert (Hm'x : m' <> x) by (intros ->; exact (HxR Hm')). rewrite (Ene m' Hm'x), Ehas.
+        split; [apply Hh'; exact Hm'|]. apply (HF [] x l eq_refl (tkw_nonlhs w _ Ht) m' Hm'). }
+      right. split; [exact TP2|]. split; [exact P2|]. split; [exact L2|]. split; [exact HA2|]. split; [exact HI2|]. split; [congruence|].
+      split; [apply (CF_trans st st' st2); [apply CF_binds, Eb|exact C2]|].
+      assert (Hxst' : okx st') by (intros Hw; destruct (Hx Hw) as [A B]; rewrite Ehas, Ekx; auto).
+      split; [apply (okx_kstable st' st2 K2 Hxst')|right; auto].
+    - (* any other recompute: the plan-free one *)
+      assert (Hoth : m <> x \/ (tkw w (nkind (nd st m)) = false /\ (w = WFn -> isLhs (nkind (nd st m)) = false))).
+      { destruct (decide (m = x)) as [->|Hne]; [right|left; exact Hne].
+        split; [destruct (tkw w (nkind (nd st x))); [exfalso; apply Hno; auto|reflexivity]|]. intros Hw. apply (Hx Hw). }
+      unfold pf in Hr. rewrite (rnp_fplan_other fuel x w k st m Hkm Hoth) in Hr.
+      pose proof (E_rnp _ _ _ _ _ Hr) as G. destruct e' as [r|].
+      { left. rewrite (block_errG fuel pf l _ _ _ _ _ _ H). destruct G as [-> | ->]; [left|right]; reflexivity. }
+      destruct (nodeP bind_stepP fuel st m l st' TP P L Hg Hr) as (TP' & P' & L' & Hk' & C' & Hd).
+      pose proof (kstable_rnp fuel [] st m st' None P Hr) as K'.
+      assert (HA' : AW st' (if isAlways (nkind (nd st' m)) then al ++ [m] else al)).
+      { intros y A B C. destruct (Hd y B C A) as [(X1 & X2 & X3)| ->].
+        - pose proof (HA y X3 X1 X2). destruct (isAlways (nkind (nd st' m))); [apply elem_of_app; left|]; assumption.
+        - rewrite A. apply elem_of_app. right. left. }
+      assert (HF' : lhsFirst st' l).
+      { intros l1 m1 l2 E Hl m2 Hm2.
+        assert (H1 : has st m1) by (apply Hh'; rewrite E; apply elem_of_app; right; left).
+        assert (H2 : has st m2) by (apply Hh'; rewrite E; apply elem_of_app; right; right; exact Hm2).
+        destruct (K' m1 H1) as [_ E1]. destruct (K' m2 H2) as [_ E2]. rewrite E1 in Hl. rewrite E2.
+        apply (lhsFirst_tail st m l HF l1 m1 l2 E Hl m2 Hm2). }
+      assert (Hnd' : ndx st').
+      { apply (ndx_step fuel st m l st' TP P L Hg Hr); [|apply has_inGraph, Hg|exact Hnd].
+        intros ->. destruct (tkw w (nkind (nd st x))); [exfalso; apply Hno; auto|reflexivity]. }
+      destruct (IH st' _ st2 e2 al2 TP' P' L' HA' (rnpH fuel st m l st' TP P L Hg HI Hr) (okx_kstable st st' K' Hx) Hnd' HF')
+        as [Rj|(TP2 & P2 & L2 & HA2 & HI2 & Hk2 & C2 & Hx2 & He2)];
+        [intros m' Hm'; apply (K' m' (Hh' m' Hm'))|exact H|left; exact Rj|].
+      right. split; [exact TP2|]. split; [exact P2|]. split; [exact L2|]. split; [exact HA2|]. split; [exact HI2|]. split; [congruence|].
+      split; [apply (CF_trans st st' st2 C' C2)|]. split; [exact Hx2|exact He2].
+  Qed.
+
 End ParFault.
 
 (** * 5. From the loop invariant (queue possibly non-empty) to the quiescent invariant *)
@@ -564,6 +674,136 @@ Section ParFaultLoop.
       exact (endC_consistent sL PL (LInvC_of_LInvP sL IL Hemp LL) Hemp s' Hn Hb Hnx).
     - intros ->. destruct He as [[? _]|[_ HqL]]; [discriminate|]. apply Hq', MR, (inHeap_iff0 sL x IL), HqL.
   Qed.
+  Hypothesis HFH : forall fuel st R st' e',
+    PInv st -> LInvP st (x :: R) -> inGraph (nd st x) = true -> tkw w (nkind (nd st x)) = true ->
+    isDone st x = false -> recomputeNodeParallel fuel pf st x = Ok (st', e') -> HInv st -> HInv st'.
+
+  Lemma loopPFH fuel : forall s al s' e al',
+    Tplain s -> PInv s -> LInvP s [] -> AW s al -> HInv s -> okx x w s -> ndx x w s ->
+    parLoop fuel pf s al = Ok (s', e, al') ->
+    rejected_err e \/
+    (Tplain s' /\ PInv s' /\ LInvP s' [] /\ AW s' al' /\ HInv s' /\ stabNum s' = stabNum s /\ CF s s' /\
+     ((e = None /\ Heap.ids (heap s') = []) \/ (e = Some ferr /\ inHeap s' x = true))).
+  Proof.
+    induction fuel as [|fuel IH]; intros s al s' e al' TP P L HA HI Hx Hnd H; [discriminate|].
+    rewrite parLoop_S in H. destruct (PInv_heap s P) as [I Hq].
+    destruct (Z.leb_spec (Heap.cnt (heap s)) 0) as [Hc|Hc].
+    { injection H as <- <- <-. right. split; [exact TP|]. split; [exact P|]. split; [exact L|]. split; [exact HA|]. split; [exact HI|].
+      split; [reflexivity|]. split; [apply CF_binds; reflexivity|]. left. split; [reflexivity|apply cnt_zero_ids; assumption]. }
+    destruct (Heap.takeMinBlock (heap s)) as [block w0] eqn:Etb. cbv zeta in H.
+    set (sb := s <| heap := w0 |>) in *.
+    set (isL := fun n : nid => match nkind (nd sb n) with KBindLhs _ => true | _ => false end) in *.
+    set (order := filter (fun n => isL n = true) block ++ filter (fun n => isL n = false) block) in *.
+    apply rbind_ok in H as ([[s2 e2] al2] & H2 & H).
+    destruct (heap_takeMinBlock_spec (heap s) block w0 I Etb) as (_ & Pm & _).
+    assert (Hndb : NoDup block).
+    { pose proof (inv_nodup _ I) as Hn. rewrite Pm in Hn. apply NoDup_app in Hn as (Hn & _). exact Hn. }
+    assert (Hord : forall y, y ∈ order <-> y ∈ block).
+    { intros y. unfold order. rewrite elem_of_app, !elem_of_list_filter. destruct (isL y); intuition congruence. }
+    assert (Hndo : NoDup order).
+    { unfold order. apply NoDup_app. split; [apply stdpp.list.NoDup_filter, Hndb|]. split; [|apply stdpp.list.NoDup_filter, Hndb].
+      intros y [A _]%elem_of_list_filter [B _]%elem_of_list_filter. congruence. }
+    destruct (block_start s block w0 order P L Etb Hndo Hord) as [Pb Lb]. fold sb in Pb, Lb.
+    pose proof (Tplain_binds s sb eq_refl TP) as TPb.
+    assert (HF : lhsFirst sb order).
+    { intros l1 m l2 E Hm m2 Hm2.
+      apply (lhsFirst_app (fun n => isLhs (nkind (nd sb n)))
+               (filter (fun n => isL n = true) block) (filter (fun n => isL n = false) block) l1 m l2); try assumption.
+      - intros a [Ha _]%elem_of_list_filter. exact Ha.
+      - intros b [Hb _]%elem_of_list_filter. exact Hb. }
+    assert (Hh : forall m, m ∈ order -> has sb m).
+    { intros m Hm. apply Hord in Hm. apply has_inGraph. apply Hq. rewrite Pm. apply elem_of_app. left. exact Hm. }
+    assert (HIb : HInv sb) by exact HI.
+    destruct (blockAH x w k HFS Hferr HFH fuel order sb al s2 e2 al2 TPb Pb Lb (AW_heap s w0 al HA) HIb Hx Hnd HF Hh H2)
+      as [Rj|(TP2 & P2 & L2 & HA2 & HI2 & Hk2 & C2 & Hx2 & He2)].
+    { left. destruct e2 as [r|]; [injection H as _ <- _; exact Rj|destruct Rj; discriminate]. }
+    assert (C02 : CF s s2) by (apply (CF_trans s sb s2); [apply CF_binds; reflexivity|exact C2]).
+    destruct e2 as [r|].
+    - injection H as <- <- <-. destruct He2 as [[? _]|[[= ->] Hqx]]; [discriminate|]. right.
+      split; [exact TP2|]. split; [exact P2|]. split; [exact L2|]. split; [exact HA2|]. split; [exact HI2|]. split; [exact Hk2|].
+      split; [exact C02|]. right. auto.
+    - destruct He2 as [[_ Hnd2]|[? _]]; [|discriminate].
+      destruct (IH s2 al2 s' e al' TP2 P2 L2 HA2 HI2 Hx2 Hnd2 H) as [Rj|(TP' & P' & L' & HA' & HI' & Hk' & C' & He')]; [left; exact Rj|].
+      right. split; [exact TP'|]. split; [exact P'|]. split; [exact L'|]. split; [exact HA'|]. split; [exact HI'|].
+      split; [rewrite Hk', Hk2; reflexivity|]. split; [apply (CF_trans s s2 s' C02 C')|exact He'].
+  Qed.
+
+
+  (** C13 for a faulted parallel pass: the update handlers that run at the end are those of the nodes
+      that are registered when the pass returns and carry its change stamp (the nodes that changed
+      before the fault, and are still there) *)
+  Theorem parF_handlers s s' e :
+    Inv s -> ValInvB s -> Tplain s -> par_plan_clean s pf = true ->
+    parStabilize pf s = Ok (s', e) -> rejected e = false ->
+    exists L H,
+      rev (log s') = rev (log s) ++ [EvPassStart] ++ L ++ [EvPassEnd (classify e)] ++ H /\
+      Forall passEv L /\ Forall EngineLocal.isHandlerEv H /\ NoDup H /\
+      (forall n, EvUpd n ∈ H <-> inGraph (nd s' n) = true /\ changedAt (nd s' n) = stabNum s) /\
+      (forall o v, EvObsUpd o v ∈ H <->
+         exists n, obs s' !! o = Some n /\ changedAt (nd s' n) = stabNum s /\ v = valueOf s' n).
+  Proof.
+    intros IV V TP Hcl H Hrej. pose proof (Inv_wfb s IV) as Hwf. destruct (wfb_transients _ Hwf) as (Hst & Hsd & Hsr & Hh).
+    destruct (C13_bracket_and_order_par pf s s' e Hst) as (L & sL & always & EL & Hlog & HL & Hobs & Hsort);
+      [intros n Hn; apply (io_lt _ (inv_ids _ IV)); exact Hn|reflexivity|rewrite Hsd, Hsr; constructor|exact H|].
+    destruct (Hsort ltac:(rewrite Hh; constructor)) as [_ Hnd].
+    set (s1 := EngineLocal.passStart s) in *.
+    pose proof (LInvP_start s IV V) as L1. change (PassProofs.passStart s) with s1 in L1.
+    pose proof (Inv_PInv_start s IV) as P1. change (PInv s1) in P1.
+    pose proof (Tplain_binds s s1 eq_refl TP) as TP1.
+    assert (Hnd0 : forall y, isDone s1 y = false).
+    { intros y. unfold isDone. apply Z.eqb_neq. pose proof (stamps_node_true _ _ (vb_stamps _ V y)).
+      change (recomputedAt (nd s y) <> stabNum s). lia. }
+    assert (HA1 : AW s1 []) by (intros y _ Hd _; rewrite Hnd0 in Hd; discriminate).
+    assert (HI1 : HInv s1).
+    { intros k0. change (handlers s1) with (handlers s). rewrite Hh. split; [intros Hk; inversion Hk|].
+      intros [[_ Hc]|(n & _ & _ & Hc)]; exfalso.
+      - pose proof (stamps_node_true _ _ (vb_stamps _ V k0)). change (changedAt (nd s k0) = stabNum s) in Hc. lia.
+      - pose proof (stamps_node_true _ _ (vb_stamps _ V n)). change (changedAt (nd s n) = stabNum s) in Hc. lia. }
+    assert (Hx1 : okx x w s1).
+    { intros Hw. subst w. unfold pf, fplan, par_plan_clean in Hcl. cbn in Hcl. rewrite andb_true_r in Hcl.
+      change (nodes s1 !! x) with (nodes s !! x). unfold has. change (nd s1 x) with (nd s x). unfold nd.
+      destruct (nodes s !! x) as [y|] eqn:Ex; [|discriminate]. split; [eauto|]. cbn.
+      destruct (nkind y); try reflexivity. discriminate. }
+    assert (Hn1 : ndx x w s1) by (intros _ _; apply Hnd0).
+    destruct (loopPFH _ s1 [] sL e always TP1 P1 L1 HA1 HI1 Hx1 Hn1 EL) as [Rj|(TPL & PL & LL & HAL & HIL & HkL & CL & He)].
+    { exfalso. destruct Rj as [-> | ->]; discriminate Hrej. }
+    pose proof (PInv_Struct sL PL) as HSL. pose proof (t_obs _ _ _ (p_t _ PL)) as HOL.
+    destruct (parStabilize_decompose pf s s' e Hst H) as (sL' & al' & s2 & EL2 & ER & EE).
+    change (EngineLocal.passStart s) with s1 in EL2. rewrite EL in EL2. injection EL2 as <- <-.
+    unfold requeueAlwaysPar in ER. rewrite requeuePar_eq in ER.
+    pose proof (requeue_only_heap _ _ _ ER) as OR.
+    destruct (stabilizeEnd_quiet s2 _ s' ltac:(rewrite (oh_setDuring _ _ OR); exact (proj1 (lp_quiet _ _ LL)))
+                ltac:(rewrite (oh_setRemoved _ _ OR); exact (proj2 (lp_quiet _ _ LL))) EE)
+      as (En & _ & _ & _ & _ & _ & Eo & _).
+    assert (Hnodes : nodes s' = nodes sL) by (rewrite En; apply (oh_nodes _ _ OR)).
+    pose proof (nodes_eq_nd _ _ Hnodes) as Hnd'.
+    assert (Hobs' : obs s' = obs sL) by (rewrite Eo; apply (oh_obs _ _ OR)).
+    assert (HkLs : stabNum sL = stabNum s) by exact HkL.
+    exists L, (map (hev sL) (handlers sL)). split; [exact Hlog|]. split; [exact HL|].
+    split; [apply Forall_forall; intros e0 He0; apply elem_of_list_In, elem_of_list_fmap in He0 as (k0 & -> & _); apply hev_isHandlerEv|].
+    split; [apply NoDup_fmap_2; [intros k1 k2; apply hev_inj|exact Hnd]|].
+    split.
+    - intros n. rewrite Hnd', <- HkLs, elem_of_list_fmap. split.
+      + intros (k0 & Ek & Hk). unfold hev in Ek. destruct (obs sL !! k0) as [n'|] eqn:Eo0; [discriminate|].
+        injection Ek as ->. apply HIL in Hk as [Hk|(n' & _ & Hin & _)]; [exact Hk|].
+        apply (ob_iff _ HOL) in Hin. congruence.
+      + intros [Hg Hc]. exists n. split; [|apply HIL; left; auto].
+        unfold hev. destruct (obs sL !! n) as [n'|] eqn:Eo0; [|reflexivity].
+        exfalso. destruct (ob_ids _ HOL n n' Eo0) as (_ & Hno & _). apply Hno. apply has_inGraph, Hg.
+    - intros o v. rewrite elem_of_list_fmap. split.
+      + intros (k0 & Ek & Hk). unfold hev in Ek. destruct (obs sL !! k0) as [n|] eqn:Eo0; [|discriminate].
+        injection Ek as -> ->. exists n. rewrite Hobs'. split; [exact Eo0|].
+        rewrite Hnd', <- HkLs, (valueOf_nodes sL s' n Hnodes). split; [|reflexivity].
+        apply HIL in Hk as [[Hg _]|(n' & _ & Hin & Hc)].
+        * exfalso. destruct (ob_ids _ HOL k0 n Eo0) as (_ & Hno & _). apply Hno. apply has_inGraph, Hg.
+        * apply (ob_iff _ HOL) in Hin. congruence.
+      + intros (n & Ho & Hc & ->). rewrite Hobs' in Ho. rewrite Hnd', <- HkLs in Hc.
+        exists o. split; [unfold hev; rewrite Ho, (valueOf_nodes sL s' n Hnodes); reflexivity|].
+        apply HIL. right. exists n. split; [|split; [apply (ob_iff _ HOL), Ho|exact Hc]].
+        rewrite (st_nec _ HSL n). unfold isNecessary.
+        apply (ob_iff _ HOL) in Ho. destruct (observers (nd sL n)) as [|o' l]; [inversion Ho|].
+        rewrite (bool_decide_eq_false_2 (o' :: l = [])) by discriminate. rewrite orb_true_r. reflexivity.
+  Qed.
 End ParFaultLoop.
 
 (** * 7. Instances: an error, a panic *)
@@ -724,6 +964,80 @@ Theorem parF_panic x w s s' e :
   (e = None \/ e = Some (EPanic x)) /\ Inv s' /\ ValInvB s' /\ Tplain s' /\ CF s s' /\
   (e = None -> consistent s' = true) /\ (e = Some (EPanic x) -> inHeap s' x = true).
 Proof. exact (parF_fault x w FPanic (faultStep_panic x w) eq_refl s s' e). Qed.
+
+(* the handler set across the faulting recompute *)
+Lemma fault_HInv_err x w : forall fuel st R st' e',
+  PInv st -> LInvP st (x :: R) -> inGraph (nd st x) = true -> tkw w (nkind (nd st x)) = true ->
+  isDone st x = false -> recomputeNodeParallel fuel (fplan x w FErr) st x = Ok (st', e') -> HInv st -> HInv st'.
+Proof.
+  intros fuel st R st' e' P L Hg Ht Hd H HI.
+  destruct (rnp_errPlan_fail fuel x w st st' e' P Hg Ht H) as (_ & Ff). destruct (ft_fields _ _ _ Ff) as (_ & Fk & _).
+  exact (HInv_nodes st st' (ft_nodes _ _ _ Ff) (ft_handlers _ _ _ Ff) Fk HI).
+Qed.
+
+Lemma fault_HInv_panic x w : forall fuel st R st' e',
+  PInv st -> LInvP st (x :: R) -> inGraph (nd st x) = true -> tkw w (nkind (nd st x)) = true ->
+  isDone st x = false -> recomputeNodeParallel fuel (fplan x w FPanic) st x = Ok (st', e') -> HInv st -> HInv st'.
+Proof.
+  intros fuel st R st' e' P L Hg Ht Hd H HI. pose proof (has_inGraph _ _ Hg) as Hx. destruct (PInv_heap st P) as [I _].
+  pose proof (st_hnonneg _ (PInv_Struct st P) x Hg) as Hh.
+  rewrite rnp_unfold2 in H. cbv zeta in H.
+  set (s0 := upd st x (set recomputedAt (fun _ => stabNum st))) in *.
+  assert (Hk0 : nkind (nd s0 x) = nkind (nd st x)) by (apply (nd_upd_proj nkind); reflexivity).
+  set (sE := emit (EvFault x w FPanic) s0).
+  assert (HE : parErr sE x (recomputedAt (nd st x)) (EPanic x) = Ok (st', e')).
+  { destruct w; simpl in Ht.
+    - assert (Hmc : maybeCutoff (fplan x WFn FPanic) s0 x (nd st x) = Ok (s0, None, false)).
+      { unfold maybeCutoff. destruct (nkind (nd st x)); try reflexivity; discriminate Ht. }
+      rewrite Hmc in H. cbn [rbind] in H.
+      assert (Hsn : stabilizeNode fuel (fplan x WFn FPanic) s0 x = Ok (sE, Some (EPanic x))).
+      { assert (Hinv : invoke (fplan x WFn FPanic) s0 x WFn = Ok (sE, Some (EPanic x))).
+        { unfold invoke. rewrite fplan_actions, Nat.eqb_refl. reflexivity. }
+        unfold stabilizeNode. rewrite Hk0. destruct (nkind (nd st x)); try discriminate Ht; rewrite Hinv; reflexivity. }
+      rewrite Hsn in H. cbn [rbind] in H. exact H.
+    - assert (Hmc : maybeCutoff (fplan x WCut FPanic) s0 x (nd st x) = Ok (sE, Some (EPanic x), false)).
+      { assert (Hinv : invoke (fplan x WCut FPanic) s0 x WCut = Ok (sE, Some (EPanic x))).
+        { unfold invoke. rewrite fplan_actions, Nat.eqb_refl. reflexivity. }
+        unfold maybeCutoff. destruct (nkind (nd st x)); try discriminate Ht. rewrite Hinv. reflexivity. }
+      rewrite Hmc in H. cbn [rbind] in H. exact H. }
+  clear H. unfold parErr in HE. set (sA := upd sE x (set recomputedAt (fun _ => 0))) in *.
+  apply rbind_ok in HE as (s3 & E3 & [= <- <-]).
+  assert (HxE : has sE x) by (apply has_emit, has_upd, Hx).
+  assert (HndA : forall y, nd sA y = if decide (y = x) then nd st x <| recomputedAt := 0 |> else nd st y).
+  { intros y. unfold sA. rewrite nd_upd by exact HxE. destruct (decide (y = x)) as [->|Hy].
+    - unfold sE. rewrite nd_emit. unfold s0. rewrite nd_upd_eq by exact Hx. destruct (nd st x); reflexivity.
+    - unfold sE. rewrite nd_emit. unfold s0. apply nd_upd_ne, Hy. }
+  assert (IA : HeapSpec.inv (heap sA)) by exact I.
+  destruct (heapAddIfNotPresent_spec0 sA x s3 IA ltac:(rewrite HndA, decide_True by reflexivity; exact Hh) E3) as (O3 & _).
+  destruct (errorHandlers_fields s3 x) as (En & _ & _ & _ & Ek & _).
+  assert (Hnd' : forall y, nd (errorHandlers s3 x) y = if decide (y = x) then nd st x <| recomputedAt := 0 |> else nd st y).
+  { intros y. rewrite (nodes_eq_nd _ _ En y), (oh_nd _ _ O3). apply HndA. }
+  assert (Hh' : handlers (errorHandlers s3 x) = handlers st).
+  { unfold errorHandlers. destruct (nkind (nd s3 x)); cbn; apply (oh_handlers _ _ O3). }
+  assert (Hf : forall (A : Type) (g : node -> A) y, (forall z a, g (z <| recomputedAt := a |>) = g z) ->
+             g (nd (errorHandlers s3 x) y) = g (nd st y)).
+  { intros A g y Hgg. rewrite Hnd'. destruct (decide (y = x)) as [->|]; [apply Hgg|reflexivity]. }
+  intros k0. rewrite Hh', Ek, (oh_stabNum _ _ O3). change (stabNum sA) with (stabNum st). rewrite (HI k0).
+  rewrite (Hf _ inGraph), (Hf _ changedAt) by reflexivity. apply or_iff_compat_l.
+  split; intros (n & A1 & A2 & A3); exists n.
+  - rewrite (Hf _ inGraph), (Hf _ observers), (Hf _ changedAt) by reflexivity. auto.
+  - rewrite (Hf _ inGraph), (Hf _ observers), (Hf _ changedAt) in * by reflexivity. auto.
+Qed.
+
+Theorem parF_handlers_any x w k s s' e :
+  Inv s -> ValInvB s -> Tplain s -> par_plan_clean s (fplan x w k) = true ->
+  parStabilize (fplan x w k) s = Ok (s', e) -> rejected e = false ->
+  exists L H,
+    rev (log s') = rev (log s) ++ [EvPassStart] ++ L ++ [EvPassEnd (classify e)] ++ H /\
+    Forall passEv L /\ Forall EngineLocal.isHandlerEv H /\ NoDup H /\
+    (forall n, EvUpd n ∈ H <-> inGraph (nd s' n) = true /\ changedAt (nd s' n) = stabNum s) /\
+    (forall o v, EvObsUpd o v ∈ H <->
+       exists n, obs s' !! o = Some n /\ changedAt (nd s' n) = stabNum s /\ v = valueOf s' n).
+Proof.
+  destruct k.
+  - exact (parF_handlers x w FErr (faultStep_err x w) eq_refl (fault_HInv_err x w) s s' e).
+  - exact (parF_handlers x w FPanic (faultStep_panic x w) eq_refl (fault_HInv_panic x w) s s' e).
+Qed.
 
 (** the retry: whatever the failed parallel pass left, a plan-free pass of EITHER stabilizer that
     completes converges *)
